@@ -59,6 +59,7 @@ class Ctl:
         self.fn_ids = {}
         self.progress_clock = 0
         self.extra = {}
+        self.stall_timeout = 20
 
     # ---- entity side
     def me(self):
@@ -104,8 +105,8 @@ class Ctl:
                 import time as _t
                 t0 = _t.time()
                 while any(e.state == "running" for e in self.ents.values()):
-                    self.cv.wait(timeout=5)
-                    if any(e.state == "running" for e in self.ents.values()) and _t.time() - t0 > 20:
+                    self.cv.wait(timeout=1)
+                    if any(e.state == "running" for e in self.ents.values()) and _t.time() - t0 > self.stall_timeout:
                         self.verdict = "harness-stall"
                         self.stopped = True
                         self.cv.notify_all()
@@ -535,8 +536,10 @@ def install(schedule, step_limit=4000):
     co.gethostname = lambda: "simhost"
     try:
         import executorlib.cache.shared as cs
+        import executorlib.cache.subprocess_spawner as css
         cs.queue = FAKE_QUEUE_MODULE
         cs.Future = SFuture
+        css.subprocess = FAKE_SUBPROCESS
     except Exception:  # noqa
         pass
     return CTL
